@@ -12,6 +12,7 @@ import Gsp.Model.HasherCfg
 import Gsp.Model.Claim
 import Gsp.Model.Verify
 import Gsp.Model.Loader
+import Gsp.Model.Json
 /-! Line-protocol driver: one JSON case per line on stdin, one `{"id","out"}` per line on stdout. Core-only. -/
 open Lean Gsp
 
@@ -466,6 +467,43 @@ def opLoaderExpected (inp : Json) : Except String Json := do
     | _ => errJ "err"
   pure (Json.mkObj (urls.map fun u => (u, exp u)))
 
+
+/-! ### credential struct view -/
+partial def toJ : Json → Json.J
+  | .null => .null
+  | .bool b => .bool b
+  | .num n => .num (toString n)
+  | .str s => .str s
+  | .arr xs => .arr (xs.toList.map toJ)
+  | .obj kvs => .obj (kvs.toList.map fun (k, v) => (k, toJ v))
+
+partial def jEq : Json.J → Json.J → Bool
+  | .null, .null => true
+  | .bool a, .bool b => a == b
+  | .num a, .num b => a == b
+  | .str a, .str b => a == b
+  | .arr a, .arr b => a.length == b.length && (a.zip b).all fun (x, y) => jEq x y
+  | .obj a, .obj b => a.length == b.length && a.all fun (k, v) => match b.lookup k with | some w => jEq v w | none => false
+  | _, _ => false
+
+def optJEq : Option Json.J → Option Json.J → Bool
+  | none, none => true
+  | some a, some b => jEq a b
+  | _, _ => false
+
+def opCredView (inp : Json) : Except String Json := do
+  let j := toJ (← inp.getObjVal? "doc")
+  match Json.view Xsd.parseTime j with
+  | none => pure (errJ "not-the-supported-shape")
+  | some c =>
+    let j' := Json.unview Xsd.renderRFC3339 c
+    let plain := ["@context", "type", "credentialSubject", "credentialStatus", "issuer", "credentialSchema", "proof", "id", "refreshService", "displayMethod"]
+    let bad := plain.filter fun k => !optJEq (j'.get k) (j.get k)
+    let badDates := ["expirationDate", "issuanceDate"].filter fun k =>
+      Json.optDate Xsd.parseTime (j'.get k) != Json.optDate Xsd.parseTime (j.get k)
+    if bad.isEmpty && badDates.isEmpty then pure (okJ (Json.str "lossless"))
+    else pure (Json.mkObj [("lost", Json.arr ((bad ++ badDates).map Json.str).toArray)])
+
 def handle (k : Pos.Consts) (op : String) (inp : Json) : Except String Json :=
   match op with
   | "pre.hash" => opPreHash k inp
@@ -483,6 +521,7 @@ def handle (k : Pos.Consts) (op : String) (inp : Json) : Except String Json :=
   | "verify.smtp" => opVerifySmt k inp
   | "verify.status" => opVerifyStatus k inp
   | "verify.http" => opVerifyHttp inp
+  | "cred.view" => opCredView inp
   | "loader.run" => opLoaderRun inp
   | "loader.expected" => opLoaderExpected inp
   | _ => throw s!"unknown op {op}"
